@@ -22,7 +22,8 @@ def render(content, lay):
     def head(h):
         if lay['blanks']:
             out.append(lay.get('blank_fill', '') + '\n')       # a blank line: empty, or nothing but spaces / tabs
-        out.append(h + '\n')
+        # a section title may be indented too: '~' is the first non-blank character of its line (LAS 2.0, part 5)
+        out.append(' ' * lay.get('head_lead', 0) + h + '\n')
         if lay['comments']:
             out.append(lay.get('comment_indent', '') + '#MNEM.UNIT      VALUE : DESCRIPTION\n')
     head('~Version Information')
